@@ -276,3 +276,40 @@ Proof.
 Qed.
 Lemma persisted0 : persisted rstore0.
 Proof. split; reflexivity. Qed.
+
+(* ------------------------------------------------------------------ reachable stores have sorted, non-negative logs *)
+Lemma ms_run_sorted : forall ops m, log_sorted (ms_log m) -> log_sorted (ms_log (ms_run ops m)).
+Proof.
+  induction ops as [|o t IH]; intros m H; cbn [ms_run fold_left]; auto. apply IH. now apply ms_step_sorted.
+Qed.
+
+Definition op_nonneg (o : op) : Prop :=
+  match o with OAppend es => Forall (fun e => 0 <= l_index (e_id e)) es | _ => True end.
+
+Lemma ms_step_nonneg : forall m o, op_nonneg o -> log_nonneg (ms_log m) -> log_nonneg (ms_log (ms_step m o)).
+Proof.
+  intros m o Ho H. destruct o; cbn [ms_step ms_save_vote ms_append ms_delete_since ms_purge ms_apply ms_build ms_install ms_with_log ms_with_sm ms_log]; auto.
+  - now apply log_append_nonneg.
+  - now apply filter_nonneg.
+  - now apply filter_nonneg.
+Qed.
+Lemma ms_run_nonneg : forall ops m, Forall op_nonneg ops -> log_nonneg (ms_log m) -> log_nonneg (ms_log (ms_run ops m)).
+Proof.
+  induction ops as [|o t IH]; intros m Ho H; cbn [ms_run fold_left]; auto. inv Ho.
+  apply IH; auto. now apply ms_step_nonneg.
+Qed.
+
+(* vote: saved, then untouched by every other call *)
+Lemma ms_vote_step : forall m o, ms_vote (ms_step m o) = match o with OVote v => Some v | _ => ms_vote m end.
+Proof. intros m []; reflexivity. Qed.
+Lemma rs_vote_step : forall r o, d_vote (r_disk (rs_step r o)) = match o with OVote v => Some v | _ => d_vote (r_disk r) end.
+Proof. intros [d v] []; reflexivity. Qed.
+
+(* current snapshot: none before the first build/install, afterwards the last one built or installed *)
+Lemma ms_snap_step : forall m o,
+    ms_snap (ms_step m o) = match o with
+                            | OBuild => Some (sm_snapshot (ms_sm m))
+                            | OInstall sn => Some sn
+                            | _ => ms_snap m
+                            end.
+Proof. intros m []; reflexivity. Qed.
